@@ -134,11 +134,9 @@ fn render(ts: &[Tk], style: usize, r: &mut Rng) -> String {
             Tk::Name(n) => n.clone(),
         };
         // separator before this token
-        // a variable name must be separated from a following name, and from a following binder written with the
-        // glyph λ (a letter, it would continue the name); a backslash cannot be part of an identifier and ends it
-        let need = i > 0
-            && matches!(ts[i - 1], Tk::Name(_))
-            && (matches!(t, Tk::Name(_)) || (matches!(t, Tk::Lam(Some(_))) && style % 2 == 0));
+        // a variable name must be separated from a following name; either glyph ends an identifier (repairs F9, F11:
+        // `x\y.y` and `xλy.y` are both `x (λy.y)`), so a binder needs no separator
+        let need = i > 0 && matches!(ts[i - 1], Tk::Name(_)) && matches!(t, Tk::Name(_));
         let sep = match style {
             0 | 1 => if need { " " } else { "" }.to_string(),
             2 | 3 => " ".to_string(),
@@ -547,9 +545,11 @@ pub fn c09(ctx: &mut Ctx) {
         }
         sx.push(if ctx.rng.chance(1, 2) { 'λ' } else { '\\' });
         // a bad binder: (prefix of valid name characters, offending character)
+        // (("", '.') is the EMPTY binder name, `λ.x`: repair F12)
         let (pre, c): (&str, char) = *ctx.rng.pick(&[("", '1'), ("", '9'), ("", ' '), ("", '('), ("", '-'), ("x", ' '), ("x", '-'), ("ab", '('),
-            ("y1", ')'), ("x", 'λ'), ("", '\\'), ("a", '#'), ("", '\u{0660}'), ("z", '\t')][..]);
-        // `xλ` is fine (λ is a letter): skip that combination, it is not an error
+            ("y1", ')'), ("x", 'λ'), ("", '\\'), ("a", '#'), ("", '\u{0660}'), ("z", '\t'), ("", '.'), ("", '.')][..]);
+        // the glyph λ INSIDE a binder name is read as a letter by the crate (pinned by its test `λλλ`): known finding, checked
+        // separately below on fixed inputs
         if c == 'λ' {
             continue;
         }
@@ -564,6 +564,45 @@ pub fn c09(ctx: &mut Ctx) {
             ctx.fail("Classic: an invalid character inside a binder name is not reported as InvalidCharacter(index, char)", &[line.clone()]);
         }
         ctx.count("invalid_char_in_binder");
+    }
+    // Classic: a glyph DIRECTLY after a variable name opens a binder, whichever glyph it is (repairs F9, F11); the two
+    // spellings must give the same result, which is the reference parse
+    {
+        let heads = ["", "λf.", "(", "\\g. g ", "a b "];
+        let names = ["x", "y1", "ab", "é2", "f"];
+        let tails = ["y.y", "y.x", "x.x y", "z1.(z1 x)", "y.λz.y", "y.y)"];
+        for h in heads.iter() {
+            for nm in names.iter() {
+                for t in tails.iter() {
+                    let mk = |g: char| format!("{}{}{}{}", h, nm, g, t);
+                    let (l1, l2) = (format!("parse c {}", string_wire(&mk('λ'))), format!("parse c {}", string_wire(&mk('\\'))));
+                    let (r1, r2) = (ctx.op(&l1), ctx.op(&l2));
+                    ctx.nontrivial(&l1);
+                    if r1 != r2 {
+                        ctx.fail("Classic: a glyph directly after a variable name gives different results for the two glyphs", &[l1.clone(), l2.clone()]);
+                    }
+                    // with a separator in front of the glyph the input is an ordinary rendering: same result again
+                    let l3 = format!("parse c {}", string_wire(&format!("{}{} λ{}", h, nm, t)));
+                    let r3 = ctx.op(&l3);
+                    if r1 != r3 {
+                        ctx.fail("Classic: a glyph directly after a variable name does not open a binder (result differs from the separated spelling)", &[l1, l3]);
+                    }
+                    ctx.count("glyph_directly_after_name");
+                }
+            }
+        }
+    }
+    // KNOWN FINDING (known_findings.json, DESIGN §8b): INSIDE a binder name the crate reads the glyph λ as a letter (the
+    // crate's own test `parse("λλλ", Classic) = EmptyExpression` pins exactly that), so these ill-formed inputs are
+    // accepted with λ and rejected with the backslash
+    for (with_lambda, with_backslash) in [("λxλy.x", "\\x\\y.x"), ("\\λ.x", "\\\\.x")] {
+        let (l1, l2) = (format!("parse c {}", string_wire(with_lambda)), format!("parse c {}", string_wire(with_backslash)));
+        let (r1, r2) = (ctx.op(&l1), ctx.op(&l2));
+        ctx.nontrivial(&l1);
+        let glyphless = |r: &str| r.replace(" 955", " G").replace(" 92", " G");
+        if glyphless(&r1) != glyphless(&r2) {
+            ctx.fail(&format!("Classic: the glyph λ inside a binder name is read as a letter: {:?} and {:?} give different results", with_lambda, with_backslash), &[l1, l2]);
+        }
     }
     // ---------------- Display of ParseError (string table with formatting of index and character)
     for line in ["errmsg parse IE", "errmsg parse EE"] {
@@ -991,7 +1030,7 @@ fn printer_universe(ctx: &mut Ctx, max_idx_15: bool) -> Vec<Term> {
     }
     // deep binders (names of 2 and 3 letters) and large free indices
     if !max_idx_15 {
-        for depth in [26usize, 27, 28, 52, 702, 703, 704] {
+        for depth in [26usize, 27, 28, 52, 702, 703, 704, 18278, 18279, 18280] {
             let mut leaves = app!(Var(1), Var(depth), Var(depth + 1), Var(depth + 30), Var(depth.saturating_sub(25).max(1)));
             if depth >= 700 {
                 leaves = app(leaves, Var(depth + 800));
@@ -1073,7 +1112,18 @@ pub fn c10(ctx: &mut Ctx) {
     let uni = printer_universe(ctx, false);
     let lam = EXPECTED_LAMBDA as u32;
     ctx.add(if lam == 955 { "build_lambda_glyph" } else { "build_backslash_glyph" }, 1);
-    for t in &uni {
+    for (k, t) in uni.iter().enumerate() {
+        // every now and then a parse that FAILS (lexically, after some valid tokens; or syntactically) comes first: the round trip
+        // must not depend on what was parsed before on this thread
+        let mut pre: Vec<String> = Vec::new();
+        if k % 17 == 3 {
+            let bad = ["λx.x ?", "(λy.y", "\\a.a #b", "x y )"][(k / 17) % 4];
+            pre.push(format!("parse c {}", string_wire(bad)));
+            let e = ctx.op(&pre[0]);
+            if !e.starts_with("err") {
+                ctx.fail("Classic: ill-formed input accepted", &pre);
+            }
+        }
         let line = format!("show c {} {}", lam, s(t));
         let r = ctx.op(&line);
         let sx = match cps_to_string(&r) {
@@ -1091,13 +1141,19 @@ pub fn c10(ctx: &mut Ctx) {
             match parse_result(&pr) {
                 Some(Ok(u)) => {
                     if u != expect {
-                        ctx.fail("parsing the Display output does not give back the term (up to renumbering of free variables by first appearance)", &[line.clone(), pl]);
+                        let mut ops = pre.clone();
+                        ops.extend([line.clone(), pl]);
+                        ctx.fail("parsing the Display output does not give back the term (up to renumbering of free variables by first appearance)", &ops);
                     }
                     if !t.has_free_variables() && u != *t {
                         ctx.fail("closed term does not round-trip through Display/parse", &[line.clone()]);
                     }
                 }
-                _ => ctx.fail("Display output does not parse", &[line.clone(), pl]),
+                _ => {
+                    let mut ops = pre.clone();
+                    ops.extend([line.clone(), pl]);
+                    ctx.fail("Display output does not parse", &ops)
+                }
             }
         }
     }
@@ -1108,7 +1164,18 @@ pub fn c11(ctx: &mut Ctx) {
     let uni = printer_universe(ctx, true);
     let lam = EXPECTED_LAMBDA as u32;
     ctx.add(if lam == 955 { "build_lambda_glyph" } else { "build_backslash_glyph" }, 1);
-    for t in &uni {
+    for (k, t) in uni.iter().enumerate() {
+        // every now and then a parse that FAILS (lexically, after some valid tokens; or syntactically) comes first: the round trip
+        // must not depend on what was parsed before on this thread
+        let mut pre: Vec<String> = Vec::new();
+        if k % 17 == 3 {
+            let bad = ["λλx2", "3(?", "(λ1", "12)", "λλ2 1 g"][(k / 17) % 5];
+            pre.push(format!("parse d {}", string_wire(bad)));
+            let e = ctx.op(&pre[0]);
+            if !e.starts_with("err") {
+                ctx.fail("De Bruijn: ill-formed input accepted", &pre);
+            }
+        }
         let line = format!("show d {} {}", lam, s(t));
         let r = ctx.op(&line);
         let sx = match cps_to_string(&r) {
@@ -1124,10 +1191,16 @@ pub fn c11(ctx: &mut Ctx) {
         match parse_result(&pr) {
             Some(Ok(u)) => {
                 if u != *t {
-                    ctx.fail("parsing the Debug output does not give back the identical term", &[line.clone(), pl]);
+                    let mut ops = pre.clone();
+                    ops.extend([line.clone(), pl]);
+                    ctx.fail("parsing the Debug output does not give back the identical term", &ops);
                 }
             }
-            _ => ctx.fail("Debug output does not parse", &[line.clone(), pl]),
+            _ => {
+                let mut ops = pre.clone();
+                ops.extend([line.clone(), pl]);
+                ctx.fail("Debug output does not parse", &ops)
+            }
         }
     }
 }
@@ -1318,6 +1391,13 @@ pub fn c12(ctx: &mut Ctx) {
             };
             ns.push(ctx.rng.below(cap));
         }
+        // numbers around the widths an intermediate counter might have
+        match e {
+            Encoding::Church | Encoding::Scott => ns.extend([127usize, 128, 255, 256, 257, 511, 512, 1023, 1024, 1025, 4095, 4096, 4097, 65535, 65536, 65537]),
+            Encoding::StumpFu => ns.extend([127usize, 128, 129, 255, 256, 257]),
+            Encoding::Parigot => ns.extend([15usize, 16, 17]),
+            Encoding::Binary => {}
+        }
         if let Encoding::Binary = e {
             // including numbers that use the top bits of usize
             ns.extend([255, 256, 1023, 1024, 65535, 65536, (1 << 31) - 1, 1 << 31, usize::MAX >> 1, 1 << 62, 1 << 63, (1 << 63) + 1,
@@ -1450,8 +1530,17 @@ pub fn c12(ctx: &mut Ctx) {
         }
         vecs.extend(cur);
     }
+    // long vectors, beyond any unrolling or table size a conversion might use, with larger elements (Parigot lists double
+    // with every element: only up to 10)
+    for l in [6usize, 7, 8, 9, 10, 12, 16, 17, 33, 64, 65] {
+        vecs.push((0..l).map(|i| (i * 7 + 3) % 9).collect());
+        vecs.push((0..l).map(|i| (l - i) % 4).collect());
+    }
     for v in &vecs {
         for kind in ["church", "scott", "parigot"] {
+            if kind == "parigot" && v.len() > 10 {
+                continue;
+            }
             let line = format!("vecn {} {} {}", kind, v.len(), v.iter().map(|x| x.to_string()).collect::<Vec<_>>().join(" "));
             let r = ctx.op(&line);
             ctx.nontrivial(&line);
@@ -1490,6 +1579,9 @@ pub fn c12(ctx: &mut Ctx) {
         // Vec<Term> conversions with numerals and with small closed payload terms
         let ts: Vec<Term> = v.iter().map(|x| x.into_church()).collect();
         for kind in ["pair", "from", "church", "scott", "parigot"] {
+            if kind == "parigot" && ts.len() > 10 {
+                continue;
+            }
             let line = format!("vect {} {} {}", kind, ts.len(), ts.iter().map(s).collect::<Vec<_>>().join(" "));
             let r = ctx.op(&line);
             ctx.nontrivial(&line);
